@@ -75,8 +75,16 @@ func c01Case(w *rt.W, st *c01State, y int64, m, d int, slow bool) {
 	if errB != nil || string(outB) != wantB {
 		c01Fail(w, "out-formatter-basic", y, m, d, "DefaultFormatter(nil,FormatBasic)", string(outB), wantB)
 	}
+	if fv, ferr := date.Formatter(nil, dt, date.FormatBasic); ferr != nil || string(fv) != wantB {
+		c01Fail(w, "out-formatter-variable", y, m, d, "Formatter variable (FormatBasic)", string(fv), wantB)
+	}
+	if limit == 0 || len(wantE) <= limit {
+		if pv, perr := date.Parser([]byte(wantE), date.RuleDisableBasic); perr != nil || !pv.Equal(dt) {
+			c01Fail(w, "in-parser-variable", y, m, d, "Parser variable (RuleDisableBasic) "+wantE, fmt.Sprint(pv, " err=", perr), wantE)
+		}
+	}
 	mt, err := dt.MarshalText()
-	w.Eval(1)
+	w.Eval(3)
 	if err != nil || string(mt) != wantE {
 		c01Fail(w, "out-marshaltext", y, m, d, "MarshalText", string(mt), wantE)
 	}
@@ -95,6 +103,29 @@ func c01Case(w *rt.W, st *c01State, y int64, m, d int, slow bool) {
 	st.heldWant = append(st.heldWant[:0], string(outE), string(outB), string(mt))
 	st.heldArgs = append(st.heldArgs[:0], [3]int64{y, int64(m), int64(d)}, [3]int64{y, int64(m), int64(d)}, [3]int64{y, int64(m), int64(d)})
 
+	{ // a caller-provided scratch buffer with room to spare (the usual way to avoid allocations)
+		o1, _ := date.DefaultFormatter(make([]byte, 0, 40), dt, 0)
+		o2, _ := date.DefaultFormatter(append(make([]byte, 0, 40), "ab"...), dt, date.FormatBasic)
+		w.Eval(2)
+		if string(o1) != wantE {
+			c01Fail(w, "out-formatter-spare-capacity", y, m, d, "DefaultFormatter(make([]byte,0,40),0)", string(o1), wantE)
+		}
+		if string(o2) != "ab"+wantB {
+			c01Fail(w, "out-formatter-spare-capacity", y, m, d, "DefaultFormatter(\"ab\" with spare capacity,FormatBasic)", string(o2), "ab"+wantB)
+		}
+		// the text sits inside a larger record: the bytes after it belong to the caller
+		rec := append(append(make([]byte, 0, 64), wantE...), "|NEXT-FIELD"...)
+		g, err := date.DefaultParser(rec[:len(wantE)], 0)
+		w.Eval(1)
+		if limit == 0 || len(wantE) <= limit {
+			if err != nil || !g.Equal(dt) {
+				c01Fail(w, "in-subslice", y, m, d, "DefaultParser[[]byte] on a sub-slice of a record", fmt.Sprint(g, " err=", err), wantE)
+			}
+		}
+		if string(rec[len(wantE):]) != "|NEXT-FIELD" {
+			c01Fail(w, "in-parser-wrote-behind-input", y, m, d, "DefaultParser[[]byte] on a sub-slice of a record", string(rec), wantE+"|NEXT-FIELD")
+		}
+	}
 	if slow {
 		pre, _ := date.DefaultFormatter([]byte("x="), dt, 0)
 		if string(pre) != "x="+wantE {
